@@ -262,6 +262,11 @@ def MSt.alloc (s : MSt) (size align : Nat) : Nat × MSt :=
 
 def MSt.setMem (s : MSt) (m : Mem) : MSt := { s with st := { s.st with mem := m } }
 
+/-- the block frame of the `i`-th map entry (`none` for a value that is not a key/value pair) -/
+def entryFrame (base : Nat) : Option Val → Option Frame
+  | some (.record [x, y]) => some { key := some (.v x), val := some (.v y), base := some base }
+  | _ => none
+
 def Env.bind (env : Env) (o : Op) (args : List Expr) (rs : List MV) : Env :=
   { env with lets := (keyOf o args, rs) :: env.lets }
 
@@ -292,10 +297,7 @@ def execOp (p : Nat) (callResults ifaceResult : List MV)
       let (ptr, s) := s.alloc (es.length * esz) (alignment p (.tuple [kt, vt]))
       let s := if r then s else { s with borrowed := (ptr, es.length * esz, alignment p (.tuple [kt, vt])) :: s.borrowed }
       (foldRange es.length s fun i s =>
-        match es[i]? with
-        | some (.record [x, y]) =>
-            (brun 0 { key := some (.v x), val := some (.v y), base := some (ptr + i * esz) } s).map (·.2)
-        | _ => none
+        (entryFrame (ptr + i * esz) es[i]?).bind fun f => (brun 0 f s).map (·.2)
       ).map fun s => ([.c (pcv p ptr), .c (pcv p es.length)], s)
   | .flistLowerMem e n, [.v (.list vs), .c a] =>
       if vs.length ≠ n then none else
